@@ -63,6 +63,26 @@ Theorem C26_snap_socket_only_gated : forall (e : endpoint) (m : meth) (x : ctx) 
 Proof. exact snap_socket_only_gated. Qed.
 Print Assumptions C26_snap_socket_only_gated.
 
+(* ... spelled out: the PLUG side of an active connection of a listed interface is EXACTLY the calling instance name
+   (the bytes cgroupSnapNameFromPid returned). Another instance of the same snap (some-snap vs some-snap_dev), a
+   connection in which the caller is only the slot side, an undesired or hotplug-gone connection, or an interface whose
+   name merely resembles a listed one does not open the endpoint. *)
+Theorem C26_snap_socket_exact_instance : forall (e : endpoint) (m : meth) (x : ctx) (u : ucred) (sn : bytes),
+  fst (serve e m x) = Handler -> peer x u -> u_socket u = snap_socket -> declared e m <> ASnap ->
+  x_snap_of_pid x = Some sn ->
+  exists names c,
+    (declared e m = AIfaceOpen names \/ exists k, declared e m = AIfaceAuth names k) /\
+    In c (x_conns x) /\ c_plug_snap c = sn /\ In (c_iface c) names /\
+    c_undesired c = false /\ c_hotplug_gone c = false.
+Proof. exact snap_socket_exact_instance. Qed.
+Print Assumptions C26_snap_socket_exact_instance.
+
+Theorem C26_snap_socket_needs_snap_name : forall (e : endpoint) (m : meth) (x : ctx) (u : ucred),
+  fst (serve e m x) = Handler -> peer x u -> u_socket u = snap_socket -> declared e m <> ASnap ->
+  x_snap_of_pid x <> None.
+Proof. exact snap_socket_needs_snap_name. Qed.
+Print Assumptions C26_snap_socket_needs_snap_name.
+
 (* root-only endpoints of the table are reached only by uid 0 on the main socket *)
 Theorem C26_root_only : forall e : endpoint, In e api -> forall (m : meth) (x : ctx),
   policy_for (ep_path e) m = Some ARoot -> fst (serve e m x) = Handler ->
@@ -112,7 +132,7 @@ Print Assumptions C26_handler_sees_peer_creds.
 (* ---- non-vacuity: the hypotheses are satisfiable, handlers are reachable ---- *)
 Definition ex_ctx (remote : string) (user : bool) : ctx :=
   mkCtx (bs remote) user (pk_table [] PkNo) (Some (bs "some-snap"))
-        [mkConn (bs "some-snap") (bs "snap-themes-control") false false] false.
+        [mkConn (bs "some-snap") (bs "core") (bs "snap-themes-control") false false] false.
 
 (* root on the main socket reaches POST /v2/users (root-only) *)
 Example ex_root_served : exists e, In e api /\ ep_path e = bs "/v2/users" /\
@@ -145,3 +165,22 @@ Example ex_peer : peer (ex_ctx "pid=42;uid=1000;socket=/run/snapd-snap.socket;" 
 Proof. apply get_some_peer. vm_compute. reflexivity. Qed.
 Example ex_nil_no_peer : forall u, ~ peer (ex_ctx "pid=;uid=;socket=;" true) u.
 Proof. intros u H. apply peer_get in H. vm_compute in H. discriminate. Qed.
+
+(* parallel instances: only some-snap has the interface connected; a request from some-snap_dev is refused, and so is
+   one from a snap that is merely the SLOT side of such a connection *)
+Definition ex_inst_ctx (caller : string) (conns : list conn) : ctx :=
+  mkCtx (bs "pid=42;uid=1000;socket=/run/snapd-snap.socket;") false (pk_table [] PkNo) (Some (bs caller)) conns false.
+Example ex_other_instance_denied :
+  fst (serve (nth 46 api (mkEp [] false false false false ANil ANil)) GET
+         (ex_inst_ctx "some-snap_dev" [mkConn (bs "some-snap") (bs "core") (bs "snap-refresh-observe") false false]))
+  = Denied Forbidden /\
+  fst (serve (nth 46 api (mkEp [] false false false false ANil ANil)) GET
+         (ex_inst_ctx "some-snap" [mkConn (bs "some-snap") (bs "core") (bs "snap-refresh-observe") false false]))
+  = Handler /\
+  ep_path (nth 46 api (mkEp [] false false false false ANil ANil)) = bs "/v2/notices".
+Proof. vm_compute. auto. Qed.
+Example ex_slot_side_denied :
+  fst (serve (nth 46 api (mkEp [] false false false false ANil ANil)) GET
+         (ex_inst_ctx "some-snap" [mkConn (bs "other-snap") (bs "some-snap") (bs "snap-refresh-observe") false false]))
+  = Denied Forbidden.
+Proof. vm_compute. reflexivity. Qed.
